@@ -32,6 +32,10 @@ pub struct Timeline<'a> {
     pub reqs: Vec<&'a ReqRec>,
     pub bs: u64,
     base: PageFile,
+    /// the run applied writes to the visible file at submission (knob
+    /// early_visible): the order in which overlapping writes take effect is
+    /// then the submission order, and crash images must use the same order
+    pub early: bool,
 }
 
 fn nblocks(r: &ReqRec, bs: u64) -> usize {
@@ -44,9 +48,22 @@ fn nblocks(r: &ReqRec, bs: u64) -> usize {
 }
 
 impl<'a> Timeline<'a> {
-    pub fn new(all: &'a [ReqRec], file: usize, base: PageFile, bs: u64) -> Self {
+    pub fn new(all: &'a [ReqRec], file: usize, base: PageFile, bs: u64, early: bool) -> Self {
         let reqs: Vec<&ReqRec> = all.iter().filter(|r| r.file == file).collect();
-        Timeline { reqs, bs, base }
+        Timeline {
+            reqs,
+            bs,
+            base,
+            early,
+        }
+    }
+
+    fn effect_order(&self, r: &ReqRec) -> u64 {
+        if self.early && r.kind == ReqKind::Write && !r.inline {
+            r.submit_seq
+        } else {
+            r.complete_seq.unwrap_or(u64::MAX)
+        }
     }
 
     /// sequence numbers worth crashing at: after every submission of a
@@ -96,15 +113,20 @@ impl<'a> Timeline<'a> {
                 vols.push((r, i, gray));
             }
         }
-        durable.sort_by_key(|r| r.complete_seq.unwrap());
+        durable.sort_by_key(|r| self.effect_order(r));
         let mut img = self.base.clone();
         for r in durable {
             apply_whole(&mut img, r);
         }
         // volatile order: completed ones by completion, then in-flight by submission
-        vols.sort_by_key(|(r, _, _)| match r.complete_seq.filter(|c| *c <= k) {
-            Some(c) => (0u8, c),
-            None => (1u8, r.submit_seq),
+        vols.sort_by_key(|(r, _, _)| {
+            if self.early && r.kind == ReqKind::Write && !r.inline {
+                return (0u8, r.submit_seq);
+            }
+            match r.complete_seq.filter(|c| *c <= k) {
+                Some(c) => (0u8, c),
+                None => (1u8, r.submit_seq),
+            }
         });
         CrashPoint {
             seq: k,
